@@ -155,6 +155,35 @@ int main(int argc, char** argv) {
       }
     }
   }
+  // ---- (2a) general unitary matrices (determinant != 1, column phases, permutations, reflections, eigenvector matrices): the
+  //      matrix entry points are not restricted to the special-unitary products that Const builds
+  if (ar.shard == 0) for (int d = 2; d <= 6; d++) {
+    const ref::Basis& B = ref::basis(d); Alpha al = make_alpha(d, true);
+    Const par; for (int i = 0; i < d; i++) for (int j = i + 1; j < d; j++) { par.SetMixingAngle(i, j, 0.3 + 0.41 * i + 0.17 * j); par.SetPhase(i, j, -0.7 + 0.23 * i * j); }
+    Mat U0 = gsl2mat(par.GetTransformationMatrix(d).get());
+    std::vector<std::pair<std::string, Mat>> Us;
+    { Mat D(d); for (int k = 0; k < d; k++) D(k, k) = std::exp(cd(0, 0.4 + 0.9 * k)); Us.push_back({"column-phases", U0 * D}); Us.push_back({"row-phases", D * U0}); }
+    { Mat P(d); for (int k = 0; k < d; k++) P(k, (k + 1) % d) = 1; Us.push_back({"cyclic-permutation", P}); Mat S = ref::eye(d); S(0, 0) = 0; S(1, 1) = 0; S(0, 1) = 1; S(1, 0) = 1; Us.push_back({"swap", S}); }
+    { Mat R = ref::eye(d); R(d - 1, d - 1) = -1; Us.push_back({"reflection", R * U0}); Us.push_back({"global-phase", cd(std::cos(1.1), std::sin(1.1)) * U0}); }
+    { SU_vector h = mkvec(d, probe(d, 0)); auto es = h.GetEigenSystem(true); Us.push_back({"eigenvector-matrix", gsl2mat(es.second.get())}); }
+    for (auto& nu : Us) {
+      const Mat& U = nu.second; Mat Ud = ref::dagger(U); GslMat Ug(U);
+      double un = ref::maxabs(Ud * U - ref::eye(d)); if (!(un <= 1e-12)) { violation("harness:general-unitary-not-unitary", J().str("kind", nu.first).i("d", d).done()); continue; }
+      std::vector<double> yd(d * d, 0.0); { std::vector<double> y(d); for (int i = 0; i < d; i++) y[i] = 0.5 + 0.3 * i * (i % 2 ? -1 : 1); yd = B.proj(ref::diag(y)); } SU_vector Yd = mkvec(d, yd); Mat Y = B.tomat(yd);
+      for (size_t a = 0; a < al.vecs.size(); a++) {
+        count("evaluations"); distinct(hashvec(al.vecs[a], d) ^ ref::fnv(nu.first.data(), nu.first.size(), 77));
+        const Mat& A = al.mats[a]; double tol = 256 * d * ref::EPS * maxabs(al.vecs[a]);
+        std::string ctx = J().str("unitary", nu.first).i("d", d).arr("A", al.vecs[a]).done();
+        SU_vector v = mkvec(d, al.vecs[a]);
+        SU_vector r1 = v.Rotate(Ug.g); cmpvec("Rotate(U):general-unitary", d, r1, Ud * A * U, tol, ctx);
+        SU_vector r2 = v.UTransform(Ug.g); cmpvec("UTransform(U):general-unitary", d, r2, Ud * A * U, tol, ctx);
+        SU_vector r3 = v.UDaggerTransform(Ug.g); cmpvec("UDaggerTransform(U):general-unitary", d, r3, U * A * Ud, tol, ctx);
+        SU_vector back = r2.UDaggerTransform(Ug.g); cmpvec("UDaggerTransform(UTransform):general-unitary", d, back, A, 2 * tol, ctx);
+        SU_vector w2 = mkvec(d, al.vecs[a]); w2.WeightedRotation(Ug.g, Yd, Ug.g);
+        cmpvec("WeightedRotation(matrix):general-unitary", d, w2, Ud * Y * (U * A * Ud) * Y * U, 8 * tol * (1 + 16 * maxabs(yd) * maxabs(yd)) * d, ctx);
+      }
+    }
+  }
   // ---- (2b) one Const object through a history of updates: the matrix must always be the one of the CURRENT parameters ----
   if (ar.shard == 0) {
     struct Upd { int kind; unsigned i, j; double v; };  // 0 angle, 1 phase
